@@ -36,7 +36,7 @@ Init == /\ tid \in 1..N /\ l = 1 /\ now = -1 /\ cs = 0
         /\ F = Hd.p0s /\ fired = {} /\ reqs = <<>> /\ accSeen = {} /\ early = {}
         /\ cnt = [r \in 1..Len(Hd.hl) |-> 0]
         /\ hs = [m \in 1..NM |-> NoHalt]
-        /\ v = [C14 |-> "ok", C15 |-> "ok", C16 |-> "ok", C17 |-> "ok"]
+        /\ v = [C03 |-> "ok", C14 |-> "ok", C15 |-> "ok", C16 |-> "ok", C17 |-> "ok"]
 
 \* ------------------------------------------------------------------ helpers
 ShocksAt(m, t) == {i \in 1..Len(Hd.fs) : Hd.fs[i][1] = m /\ Hd.fs[i][2] <= t /\ t < Hd.fs[i][2] + Hd.fs[i][3]}
@@ -131,7 +131,7 @@ Acc(e) ==
       mk == IF isMist THEN Hd.ms[mi] ELSE <<>>
       rules == PlRules(m)
       p0 == e.p0
-      pxF == e.px * PU
+      pxF == IF e.mo \/ e.px < -100000000 THEN 0 ELSE e.px * PU      \* (no price / not on the unit grid: never multiplied)
       \* expected accepted price (fine) of an ordinary limit order: clip (if target), then tick rounding
       expPx == RoundFine(ClipAll(r[5] * PU, p0, rules), r[3])
       inside == \A i \in rules : Inside(r[5] * PU, p0, Hd.pl[i][2], Hd.pl[i][3])
@@ -174,7 +174,7 @@ Round(e) ==
   LET m == e.m
       rules == PlRules(m)
       nf == Len(e.fills)
-      px == IF nf = 0 THEN 0 ELSE e.fills[nf][3] * PU
+      px == IF nf = 0 \/ e.fills[nf][3] < -100000000 THEN 0 ELSE e.fills[nf][3] * PU
       res == IF nf = 0 \/ ~ExpRun(m, e.t, cs) THEN <<cnt, hs>> ELSE HaltFold(1, m, e.t, px, cnt, hs, e.p0) IN
   /\ cnt' = res[1] /\ hs' = res[2]
   /\ v' = [v EXCEPT
@@ -182,7 +182,7 @@ Round(e) ==
             \*  price that was still moving: such rounds are not judged)
             !.C15 = F_(@, rules # {} /\ e.t > 0
                           /\ (\A k \in 1..nf : <<m, e.fills[k][1]>> \notin early /\ <<m, e.fills[k][2]>> \notin early)
-                          /\ (\E k \in 1..nf : ~InBandAll(e.fills[k][3] * PU, e.p0, rules)), "C15:trade-outside-band"),
+                          /\ (\E k \in 1..nf : e.fills[k][3] > -100000000 /\ ~InBandAll(e.fills[k][3] * PU, e.p0, rules)), "C15:trade-outside-band"),
             !.C16 = F_(@, nf > 0 /\ ~ExpRun(m, e.t, cs), "C16:fill-on-market-that-must-be-stopped")]
   /\ UNCHANGED <<now, cs, F, fired, reqs, accSeen, early>>
 
@@ -191,8 +191,12 @@ Abort(e) ==
   /\ v' = [v EXCEPT
             !.C15 = F_(@, e.phase \in {"hooks", "accept"} /\ nonTargetPending, "C15:non-target-rejected-" \o e.exc),
             !.C16 = F_(@, e.phase = "match" /\ Len(Hd.hl) > 0, "C16:run-aborted-market-not-running-" \o e.exc),
+            \* a matching round inside a run never fails (C03): the runner starts none on a market that is stopped
+            !.C03 = F_(@, e.phase = "match", "C03:round-raised-inside-a-run-" \o e.exc),
             !.C14 = F_(@, e.phase = "hooks" /\ Len(Hd.pl) = 0 /\ (Len(Hd.fs) > 0 \/ Len(Hd.ms) > 0), "C14:run-aborted-in-hooks-" \o e.exc),
-            !.C17 = F_(@, e.phase = "clock" /\ \E i \in 0..(NM - 1) : IsIdx(i), "C17:run-aborted-in-clock-step-" \o e.exc)]
+            !.C17 = F_(F_(@, e.phase = "clock" /\ \E i \in 0..(NM - 1) : IsIdx(i), "C17:run-aborted-in-clock-step-" \o e.exc),
+                          \* an index over distinct components that all declare outstanding shares (0 is a declaration) is set up
+                          e.phase = "setup" /\ Hd.neg = "" /\ (\E i \in 0..(NM - 1) : IsIdx(i)), "C17:valid-index-configuration-refused-" \o e.exc)]
   /\ Unch
 
 Step ==
